@@ -220,6 +220,15 @@ func ruleC02(w *World, r *Report) {
 	for _, name := range []string{"CleanPacket", "RecvCleanPacket"} {
 		k.cleanPointWrittenRule("C02.del.cleanpoint", name)
 	}
+	// the receipts a clean deletes are exactly those at or below the new clean point (the deleting
+	// helpers walk sequences clean+1..N, not a key range), and the clean point only moves forward:
+	// otherwise a deleted receipt is no longer covered by the clean guard (shared with C10)
+	k.cleanLoopRule("C02.del.range", "cleanReceiptBySeq", "receipts")
+	k.validateCleanRule("C02.clean.forward")
+	// the application runs only after the keeper accepted the packet (shared with C01)
+	k.msgRecvRule("C02")
+	// receipts survive an export/import under the keys they were exported from (shared with C16)
+	k.genesisFieldRule("C02.genesis")
 	r.MinInstances("C02.", 18)
 }
 
